@@ -87,15 +87,18 @@ def check_solve_t(case):
     n = L + K + 1 + case.get('extra', 0)
     bases = case.get('bases') or [[1.0, 2.0, 0.5, 4.0]]
     m0, _ = fresh(M, ref, n, bases)
-    for t in list(range(n)) + list(range(-n, 0)):
+    positions = [(t, 'int') for t in list(range(n)) + list(range(-n, 0))]
+    # the same positions as NumPy integers (what np.arange / np.flatnonzero hand out), at the ends of the span
+    positions += [(t, 'np.int64') for t in (0, L - 1, L, n - 1 - K, n - K, n - 1, -1, -n) if -n <= t < n]
+    for t, ttype in positions:
         T = t + n if t < 0 else t
         feasible = L <= T <= n - 1 - K
         m, data = fresh(M, ref, n, bases)
         log = []
         install(m, ref.names, log)
-        out = R.quiet_call(attempt, m.solve_t, t, **SOLVE_KW)
+        out = R.quiet_call(attempt, m.solve_t, np.int64(t) if ttype != 'int' else t, **SOLVE_KW)
         uninstall(m, ref.names)
-        detail = f'{text!r} LAGS={L} LEADS={K} n={n} t={t} (position {T})'
+        detail = f'{text!r} LAGS={L} LEADS={K} n={n} t={ttype}({t}) (position {T})'
         edge = T in (L, n - 1 - K) or not feasible
         if L + K >= 1 and edge:
             res.nontrivial = True
@@ -103,7 +106,7 @@ def check_solve_t(case):
         if not feasible:
             res.tag('infeasible-' + side)
             if out.ok:
-                res.fail(f'infeasible-period-served/{side}/{"negative" if t < 0 else "positive"}-spelling',
+                res.fail(f'infeasible-period-served/{side}/{"negative" if t < 0 else "positive"}-spelling' + ('' if ttype == 'int' else '/' + ttype),
                          f'{detail}: solve_t returned {out.value!r} although the period cannot accommodate the lags/leads')
                 return res
             continue
